@@ -181,4 +181,49 @@ theorem not_numeric_of_slash (dir lc : List Char) : ¬ ((dir ++ '/' :: lc) ≠ [
 theorem lastComponent_plain (lc : List Char) (h : ∀ c ∈ lc, c ≠ '/') : lastComponent lc = lc :=
   lastComponentAux_noslash lc lc h
 
+/-- `(a + "/" + b).rsplit("/", 1)[0] = a` when `b` holds no slash -/
+theorem beforeLastSlash_dir (a b : List Char) (h : ∀ c ∈ b, c ≠ '/') : beforeLastSlash (a ++ '/' :: b) = a := by
+  induction a with
+  | nil =>
+    have hb : '/' ∉ b := fun hm => h '/' hm rfl
+    simp [beforeLastSlash, hb]
+  | cons d t ih =>
+    have hm : '/' ∈ t ++ '/' :: b := by simp
+    simp only [List.cons_append, beforeLastSlash, hm, if_true, ih]
+
+/-- a name without any slash is its own `rsplit("/", 1)[0]` -/
+theorem beforeLastSlash_plain (s : List Char) (h : ∀ c ∈ s, c ≠ '/') : beforeLastSlash s = s := by
+  cases s with
+  | nil => rfl
+  | cons d t =>
+    have ht : '/' ∉ t := fun hm => h '/' (by simp [hm]) rfl
+    have hd : d ≠ '/' := h d (by simp)
+    simp [beforeLastSlash, ht, hd]
+
+theorem allSome_eq_some {β : Type} (l : List (Option β)) (r : List β) (h : allSome l = some r) : r.map some = l := by
+  induction l generalizing r with
+  | nil => simp [allSome] at h; subst h; rfl
+  | cons a t ih =>
+    cases a with
+    | none => simp [allSome] at h
+    | some a =>
+      simp only [allSome, Option.map_eq_some_iff] at h
+      obtain ⟨r', hr', rfl⟩ := h
+      simp [ih r' hr']
+
+theorem map_some_inj {β : Type} (a b : List β) (h : a.map some = b.map some) : a = b := by
+  induction a generalizing b with
+  | nil => cases b with
+    | nil => rfl
+    | cons _ _ => simp at h
+  | cons x t ih => cases b with
+    | nil => simp at h
+    | cons y u =>
+      simp only [List.map_cons, List.cons.injEq, Option.some.injEq] at h
+      rw [h.1, ih u h.2]
+
+/-- ids that are pairwise increasing are pairwise distinct -/
+theorem nodup_of_pairwise_lt (l : List Nat) (h : l.Pairwise (· < ·)) : l.Nodup :=
+  List.Pairwise.imp (fun hab => Nat.ne_of_lt hab) h
+
 end CryoCat.C03
